@@ -205,6 +205,11 @@ class SumOperator(LinearOperator):
         if from_inverse:
             raise NotImplementedError(
                 "cannot draw from inverse of this operator")
+        if any(self._neg):
+            # the sum of independent samples of the terms has covariance
+            # sum(ops), whatever the signs
+            raise NotImplementedError(
+                "cannot draw from a sum with negative terms")
         res = None
         for op in self._ops:
             from .simple_linear_operators import NullOperator
